@@ -204,7 +204,7 @@ func (m ClientState) VerifyPacketCleanCommitment(
 		)
 	}
 	constructor := NewProofKeyConstructor(sourceChain, destChain, sequence)
-	return verifyMerkleProof(ethProof, consensusState, m.ContractAddress, sdk.Uint64ToBigEndian(sequence), constructor.GetCleanPacketCommitmentProofKey())
+	return verifyMerkleProof(ethProof, consensusState, m.ContractAddress, common.LeftPadBytes(sdk.Uint64ToBigEndian(sequence), 32), constructor.GetCleanPacketCommitmentProofKey())
 }
 
 // produceVerificationArgs performs the basic checks on the arguments that are
